@@ -60,6 +60,17 @@ func c13Shapes(thorough bool) (all []logShape, chainAlphabet []logShape) {
 		if t, err := ledger.ParseTime(text); err == nil {
 			stamps[n] = t
 		}
+		// the same text as a request body carries it (a JSON string decoded into ledger.Time)
+		var viaJSON ledger.Time
+		if raw, _ := json.Marshal(text); json.Unmarshal(raw, &viaJSON) == nil {
+			stamps[n+"-json"] = viaJSON
+		}
+	}
+	for n, text := range map[string]string{"ns7-json": "2023-05-06T07:08:09.1234567Z", "ns9-json": "2023-05-06T07:08:09.123456789+02:00"} {
+		var viaJSON ledger.Time
+		if raw, _ := json.Marshal(text); json.Unmarshal(raw, &viaJSON) == nil {
+			stamps[n] = viaJSON
+		}
 	}
 	// (huge amounts that are NOT round in binary or decimal matter: a lossy decoder keeps 2^64 and 10^27 intact)
 	ten30p7, _ := new(big.Int).SetString("1000000000000000000000000000007", 10)
